@@ -209,13 +209,17 @@ func firstLine(s string) string {
 
 func scenarios(tier string) []scenario {
 	var out []scenario
-	b := 1
+	b := 2
 	if tier == "thorough" {
-		b = 2
+		b = 3
 	}
 	for _, ev := range []string{"client_close", "server_close", "write_err_client", "write_err_server", "bad_frame_client", "bad_frame_server", "shutdown"} {
 		for _, st := range []string{"idle", "midstream", "blocked", "output_full", "client_stalled"} {
-			out = append(out, scenario{Event: ev, State: st, Bound: b})
+			sb := b
+			if st == "output_full" || st == "client_stalled" {
+				sb = b - 1 // many more threads and points in the flooded states
+			}
+			out = append(out, scenario{Event: ev, State: st, Bound: sb})
 		}
 	}
 	out = append(out, scenario{Event: "bad_preface", State: "idle", Bound: b}, scenario{Event: "dial_error", State: "idle", Bound: b})
